@@ -10,7 +10,7 @@ import os
 
 from . import seams, kernel
 
-BOX_KINDS = ('unit', 'negative', 'offset', 'mixedsign', 'tiny', 'huge')
+BOX_KINDS = ('unit', 'negative', 'offset', 'mixedsign', 'tiny', 'huge', 'lopsided', 'odd')
 BOXES = {
     'unit': (0.0, 1.0),
     'negative': (-5.0, -1.0),
@@ -18,6 +18,8 @@ BOXES = {
     'mixedsign': (-3.0, 5.0),
     'tiny': (3.0, 3.0 + 1e-6),
     'huge': (-1.0e6, 1.0e6),
+    'lopsided': (-1.0e6, 0.3),      # |lb| >> |ub|: lb + (ub - lb) is not ub in floating point
+    'odd': (0.4, 9.6),              # bounds that are not on a decimal grid
 }
 LATENCIES = (1.0, 10.0, 60.0, 600.0, 3600.0, 36000.0)
 OUTCOMES = ('ok', 'timeout', 'runtime', 'value', 'key', 'zerodiv')
@@ -52,7 +54,7 @@ class World:
         self.m = m if m is not None else 1 + D.dec('cfg', 'm', 4)
         self.ncons = ncons if ncons is not None else D.weighted('cfg', 'ncons', (3, 1, 1))
         boxk = box if box is not None else D.pick('cfg', 'box', ('unit', 'negative', 'offset', 'mixedsign',
-                                                                 'tiny', 'huge', 'mixed'))
+                                                                 'tiny', 'huge', 'mixed', 'lopsided', 'odd'))
         self.boxkind = boxk
         self.quantised = quantised if quantised is not None else bool(D.weighted('cfg', 'quant', (3, 1)))
         self.fail = fail if fail is not None else 'none'
@@ -63,9 +65,11 @@ class World:
             kind = boxk if boxk != 'mixed' else D.pick('cfg', ('boxi', i), BOX_KINDS)
             lb, ub = BOXES[kind]
             p = {'name': 'x%d' % i, 'bounds': [lb, ub]}
-            prec = precision if precision is not None else D.weighted('cfg', ('prec', i), (5, 1))
+            prec = precision if precision is not None else D.weighted('cfg', ('prec', i), (5, 1, 1, 1))
             if prec:
-                p['precision'] = (ub - lb) / 64.0
+                # declared coarse precisions: a binary fraction of the width, and 5*10^k / 4*10^k grids (not powers of ten)
+                decade = 10.0 ** math.floor(math.log10(ub - lb))
+                p['precision'] = ((ub - lb) / 64.0, 0.05 * decade, 0.4 * decade)[prec - 1]
             if with_tol:
                 p['tol'] = (ub - lb) * (0.01, 0.05, 0.001)[D.dec('cfg', ('tol', i), 3)]
             p['initial_value'] = lb + (ub - lb) * 0.25
@@ -138,11 +142,15 @@ class World:
             v = float(v)
             if not math.isfinite(v):
                 return 'coordinate %d is %r' % (i, v)
-            tau = 1e-12 + 4 * math.ulp(max(abs(lb), abs(ub)))
+            # "in bounds exactly up to 1e-12": per bound, plus a few ulp of that bound (nothing can be closer than that)
+            tl = 1e-12 + 4 * math.ulp(lb)
+            tu = 1e-12 + 4 * math.ulp(ub)
             if 'precision' in p and slack_prec:
-                tau += 0.5 * p['precision']
-            if v < lb - tau or v > ub + tau:
-                return 'coordinate %d = %r outside [%r, %r] (tol %g)' % (i, v, lb, ub, tau)
+                tl += 0.5 * p['precision']
+                tu += 0.5 * p['precision']
+            if v < lb - tl or v > ub + tu:
+                return 'coordinate %d = %r outside [%r, %r] by %.3g (tol %.3g)' % (
+                    i, v, lb, ub, (lb - v) if v < lb else (v - ub), tl if v < lb else tu)
         return None
 
 
